@@ -229,7 +229,9 @@ def r1_frames(repo, report):
     for h in handlers:
         sends = [(chain(x.func), src(x.args[0])) for x in calls(h) if isinstance(x.func, ast.Attribute) and x.func.attr == "send"]
         facts.append({"catches": src(h.type) if h.type is not None else "bare", "sends": sends, "reraises": any(isinstance(x, ast.Raise) for x in ast.walk(h))})
-        if len(sends) != 2 or sends[0][1] != "-2" or not sends[1][1].startswith("(e, ") or sends[0][0] != sends[1][0] or src(h.type) != "Exception":
+        from .frames import error_payload
+        scalls = [x for x in calls(h) if isinstance(x.func, ast.Attribute) and x.func.attr == "send"]
+        if len(sends) != 2 or sends[0][1] != "-2" or error_payload(repo, "runners", scalls[1].args[0], h.name or "e") is None or sends[0][0] != sends[1][0] or src(h.type) != "Exception":
             ok = False
     report.ob("C06.R1", "reader: error frames", ok, facts={"handlers": facts}, expected="except Exception: send(-2); send((e, traceback)) on the same connection(s)", loc=repo.loc(rrun))
     en = [x for x in calls(rrun) if chain(x.func) == "enumerate"]
@@ -239,7 +241,9 @@ def r1_frames(repo, report):
     c, pinit = repo.need_method("ParallelPipelineRunner", "__init__")
     tr = [x for x in calls(pinit) if chain(x.func) == "self._try_receive"]
     fmt_sends = [src(x.args[0]) for x in calls(rrun) if chain(x.func) == "self._file_format_connection.send"]
-    ok = len(tr) == 1 and sorted(fmt_sends) == sorted(["-2", "(e, traceback.format_exc())", "file_format"])
+    fmt_calls = [x for x in calls(rrun) if chain(x.func) == "self._file_format_connection.send"]
+    kinds = sorted("error" if error_payload(repo, "runners", x.args[0], "e") else src(x.args[0]) for x in fmt_calls)
+    ok = len(tr) == 1 and kinds == sorted(["-2", "error", "file_format"])
     report.ob("C06.R1", "reader -> main: format frame", ok, facts={"sent": fmt_sends, "received_via": src(tr[0]) if tr else None}, expected="file_format, or -2 followed by (e, traceback); received through _try_receive", loc=repo.loc(pinit))
     # _try_receive itself
     c, trf = repo.need_method("ParallelPipelineRunner", "_try_receive")
